@@ -15,6 +15,12 @@ def P(n):
     return ('param', n)
 
 
+def _only(t, want, pc=T):
+    """the value is `want` on every path that yields a value (a diverging branch - panic!, return - yields none)"""
+    leaves = [l for c_, l in term_cases(t) if l[:1] != ('never',) and sat(And(pc, c_)) is not None]
+    return bool(leaves) and all(l == want for l in leaves)
+
+
 def check(cx):
     ck = cx.check
     ck.decides += [
@@ -56,7 +62,7 @@ def check(cx):
     r2.instance('run_ping_waker: interval = config.ping_timeout, shares the quit flag, owns the ping sender')
     dur = lambda f: ('call', 'std::time::Duration::from_secs', field(CFG, f))
     okw = len(sp) == 1 and sp[0].data['args'][0] == dur('ping_timeout') and sp[0].data['args'][1] == field(SELF_, 'quit') and \
-        sp[0].data['args'][2] == ('some_of', field(SELF_, 'ping_sender')) and any(is_call(e, 'spawn') and e.data['args'][0][0] == 'call' and
+        _only(sp[0].data['args'][2], ('some_of', field(SELF_, 'ping_sender')), sp[0].pc) and any(is_call(e, 'spawn') and e.data['args'][0][0] == 'call' and
                                                                                   e.data['args'][0][1].endswith('ping_client_waker') for e in ww.events)
     if not okw:
         r2.violation('run_ping_waker|arguments', 'the ping waker is not spawned with (Duration::from_secs(ping_timeout), the session\'s quit flag, '
